@@ -319,6 +319,10 @@ pub struct G2Prepared {
 
 impl From<G2> for G2Prepared {
     fn from(g2: G2) -> G2Prepared {
+        if g2.is_zero() {
+            // the identity has no line functions: an empty coefficient list stands for it
+            return G2Prepared { coeffs: Vec::new() };
+        }
         let mut coeffs: Vec<(Fq2, Fq2, Fq2)> = Vec::new();
         let mut p = g2;
         let bits = u128::BITS - SM9_LOOP_N.leading_zeros() - 1;
@@ -351,6 +355,10 @@ impl G2Prepared {
         }
     }
     pub fn miller_loop(&self, g1: &G1) -> Fq12 {
+        // e(O, Q) = e(P, O) = 1, whatever (x, y) an identity value carries
+        if self.coeffs.is_empty() || g1.is_zero() {
+            return Fq12::one();
+        }
         let mut f = Fq12::one();
         let t1 = Fq2::new(g1.y, Fq::zero()).mul_by_nonresidue();
         let mut idx = 0;
